@@ -810,16 +810,27 @@ def modelledSafeSites : List (String × String) := [
 /-! ## the machine: registers, capture stack, output -/
 
 structure St where
-  pool : List V := []
+  /-- registers -/
+  pool : Array V := #[]
+  /-- open capture buffers, innermost first; every buffer holds its text **reversed** -/
   caps : List TStr := []
-  out : TStr := []
+  /-- the rendered output so far, **reversed** (appending is then linear in what is appended) -/
+  outR : TStr := []
+
+/-- the rendered output -/
+def St.out (st : St) : TStr := st.outR.reverse
 
 def St.write (st : St) (s : TStr) : St :=
   match st.caps with
-  | [] => { st with out := st.out ++ s }
-  | b :: r => { st with caps := (b ++ s) :: r }
+  | [] => { st with outR := s.reverse ++ st.outR }
+  | b :: r => { st with caps := (s.reverse ++ b) :: r }
 
-def St.push (st : St) (v : V) : St := { st with pool := st.pool ++ [v] }
+/-- append a register (the fields are taken apart first so that the array is updated in place) -/
+def St.push : St → V → St
+  | ⟨pool, caps, outR⟩, v => ⟨pool.push v, caps, outR⟩
+
+theorem St.push_eq (st : St) (v : V) : st.push v = { st with pool := st.pool.push v } := by
+  cases st; rfl
 
 /-- `Output::end_capture(auto_escape)` / the tail of `Macro::call` -/
 def capturedValue (m : Mode) (buf : TStr) : V := .str buf (m != .none)
@@ -876,11 +887,11 @@ def Step.run (st : St) : Step → Option St
   | .beginCapture => some { st with caps := [] :: st.caps }
   | .endCapture m =>
     match st.caps with
-    | buf :: rest => some ({ st with caps := rest }.push (capturedValue m buf))
+    | buf :: rest => some ({ st with caps := rest }.push (capturedValue m buf.reverse))
     | [] => Option.none
   | .macroReturn m =>
     match st.caps with
-    | buf :: rest => some ({ st with caps := rest }.push (capturedValue m buf))
+    | buf :: rest => some ({ st with caps := rest }.push (capturedValue m buf.reverse))
     | [] => Option.none
   | .apply g is =>
     match st.args is with
